@@ -320,6 +320,9 @@ func tableLayout(context *layoutContext, table_ bo.TableBoxITF, bottomSpace pr.F
 						}
 					}
 					row.Height = pr.Max(rowBottomY-row.PositionY, 0)
+					// the cells ending in this row may all be shorter than the
+					// rows above : the bottom of the row is never above its top
+					rowBottomY = row.PositionY + row.Height.V()
 				} else {
 					var m pr.Float
 					for _, rowCell := range endingCells {
